@@ -99,7 +99,22 @@ static void sc_suspendF3() {   // one task suspends three times in a row on the 
 }
 static void foreign_resumer3() { for (int k = 0; k < 3; k++) { void* p; while (!(p = g_sp[k].load())) cosched::yield_point(); for (int i = 0; i < 2; i++) cosched::yield_point(); TR.emit("{\"e\":\"Resume\",\"u\":%d}", 30 + k); tbb::task::resume((tbb::task::suspend_point)p); } }
 static void foreign_resumer() { void* p; while (!(p = g_sp[0].load())) cosched::yield_point(); TR.emit("{\"e\":\"Resume\",\"u\":1}"); tbb::task::resume((tbb::task::suspend_point)p); }
+// probe: the order of the two stores of suspend_point_type::recall_owner() as executed by the running code (fact for spec/sched/Recall.tla, DESIGN 2.6)
+static int probe_recall() {
+    using SP = tbb::detail::r1::suspend_point_type;
+    SP* sp = (SP*)calloc(1, sizeof(SP)); vh::rawstore(sp->m_stack_state, SP::stack_state::suspended);
+    std::vector<const void*> stores;
+    Sched S; focus_only(false);
+    S.spawn(1, [&](int) { sp->recall_owner(); });
+    while (!S.done(0)) { Pending p = S.pending(0); if (p.kind == K_STORE || p.kind == K_RMW) stores.push_back(p.addr); S.step(0); }
+    S.join_all();
+    const char* order = "unknown";
+    if (stores.size() >= 2) order = stores[0] == (const void*)&sp->m_stack_state && stores[1] == (const void*)&sp->m_is_owner_recalled ? "state" : stores[0] == (const void*)&sp->m_is_owner_recalled && stores[1] == (const void*)&sp->m_stack_state ? "flag" : "unknown";
+    printf("{\"recall_order\":\"%s\",\"stores\":%zu}\n", order, stores.size());
+    return 0;
+}
 int main(int argc, char** argv) {
+    if (argc >= 2 && !strcmp(argv[1], "probe_recall")) return probe_recall();
     if (argc < 6) return 2;
     TR.open(argv[1]); std::string sc = argv[2]; int nseeds = atoi(argv[3]); unsigned long seed0 = strtoul(argv[4], nullptr, 10); int N = atoi(argv[5]);
     long paths = 0, steps = 0, stuck = 0; vh::Timer tm; static const int dens[8] = {1, 3, 10, 40, -1, -2, -3, -5};
